@@ -17,7 +17,9 @@ M(name, recv, args, ret) == [name |-> name, recv |-> recv, args |-> args, ret |-
 Base == [ir |-> FALSE,
          ms |-> << M("m1", "ref", <<"i64">>, "i64"),
                    M("m2", "mut", <<"u8", "u64">>, "u64"),
-                   M("m3", "ref", <<>>, "res") >>]
+                   M("m3", "ref", <<>>, "res"),
+                   M("m4", "own", <<"u32">>, "u32") >>]   \* by-value receiver: the only slot that takes the container by value
+K == 1..Len(Base.ms)
 
 (* C-visible interface: exported methods only; `res` is Result<u64,()> whose C shape depends on int_result *)
 CRet(m, ir) == IF m.ret = "res" THEN (IF ir THEN "i32+out" ELSE "CResult") ELSE m.ret
@@ -25,22 +27,29 @@ Interface(d) == [k \in 1..Len(SelectSeq(d.ms, LAMBDA m : ~m.skip)) |->
                    LET m == SelectSeq(d.ms, LAMBDA x : ~x.skip)[k] IN
                    [name |-> m.name, recv |-> m.recv, args |-> m.args, ret |-> CRet(m, d.ir)]]
 
-Swap12(s) == <<s[2], s[1]>> \o SubSeq(s, 3, Len(s))
+RemoveAt(s, k) == SubSeq(s, 1, k - 1) \o SubSeq(s, k + 1, Len(s))
+SwapAt(s, k) == [i \in DOMAIN s |-> IF i = k THEN s[k + 1] ELSE IF i = k + 1 THEN s[k] ELSE s[i]]
+OtherTy(t) == IF t = "u64" THEN "u32" ELSE "u64"
+OtherRecv(r) == IF r = "ref" THEN "mut" ELSE IF r = "mut" THEN "ref" ELSE "mut"
+N(base, k) == base \o "_" \o ToString(k)
 
-(* single edits, by name *)
-Edits ==
-  [ identical     |-> Base,
-    documented    |-> [Base EXCEPT !.ms[1].doc = TRUE, !.ms[2].dflt = TRUE],
-    skipped_extra |-> [Base EXCEPT !.ms = @ \o << [M("hidden", "ref", <<>>, "i64") EXCEPT !.skip = TRUE] >>],
-    add_method    |-> [Base EXCEPT !.ms = @ \o << M("m4", "ref", <<>>, "i64") >>],
-    remove_method |-> [Base EXCEPT !.ms = <<@[1], @[3]>>],
-    rename_method |-> [Base EXCEPT !.ms[1].name = "mx"],
-    reorder       |-> [Base EXCEPT !.ms = Swap12(@)],
-    arg_type      |-> [Base EXCEPT !.ms[1].args = <<"u64">>],
-    ret_type      |-> [Base EXCEPT !.ms[1].ret = "u32"],
-    receiver      |-> [Base EXCEPT !.ms[1].recv = "mut"],
-    add_arg       |-> [Base EXCEPT !.ms[1].args = <<"i64", "u8">>],
-    int_result    |-> [Base EXCEPT !.ir = TRUE] ]
+(* single edits: the whole-trait ones by name, the per-method ones at EVERY method position (so every *)
+(* receiver kind, the first and the last slot, methods with and without arguments are all edited)     *)
+EditSet ==
+  { [name |-> "identical",     def |-> Base],
+    [name |-> "documented",    def |-> [Base EXCEPT !.ms[1].doc = TRUE, !.ms[2].dflt = TRUE]],
+    [name |-> "skipped_extra", def |-> [Base EXCEPT !.ms = @ \o << [M("hidden", "ref", <<>>, "i64") EXCEPT !.skip = TRUE] >>]],
+    [name |-> "add_method",    def |-> [Base EXCEPT !.ms = @ \o << M("m5", "ref", <<>>, "i64") >>]],
+    [name |-> "add_method_front", def |-> [Base EXCEPT !.ms = << M("m0", "ref", <<>>, "i64") >> \o @]],
+    [name |-> "int_result",    def |-> [Base EXCEPT !.ir = TRUE]] }
+  \cup { [name |-> N("remove_method", k), def |-> [Base EXCEPT !.ms = RemoveAt(@, k)]] : k \in K }
+  \cup { [name |-> N("rename_method", k), def |-> [Base EXCEPT !.ms[k].name = "mx"]] : k \in K }
+  \cup { [name |-> N("reorder", k),       def |-> [Base EXCEPT !.ms = SwapAt(@, k)]] : k \in 1..(Len(Base.ms) - 1) }
+  \cup { [name |-> N("arg_type", k),      def |-> [Base EXCEPT !.ms[k].args[1] = OtherTy(@)]] : k \in {j \in K : Len(Base.ms[j].args) > 0} }
+  \cup { [name |-> N("ret_type", k),      def |-> [Base EXCEPT !.ms[k].ret = OtherTy(@)]] : k \in K }
+  \cup { [name |-> N("receiver", k),      def |-> [Base EXCEPT !.ms[k].recv = OtherRecv(@)]] : k \in K }
+  \cup { [name |-> N("add_arg", k),       def |-> [Base EXCEPT !.ms[k].args = @ \o <<"u8">>]] : k \in K }
+Preserving == {"identical", "documented", "skipped_extra"}
 
 Verdict(a, b) == IF Interface(a) = Interface(b) THEN "Valid" ELSE "Invalid"
 
@@ -64,14 +73,14 @@ AndLaws == /\ \A v, w \in Vs : And(v, w) = And(w, v)
            /\ And("Unknown", "Valid") = "Unknown"
 ASSUME AndLaws
 (* the statement of C20 on the enumerated edits: Valid exactly for interface-preserving edits *)
-ASSUME \A e \in DOMAIN Edits : (Verdict(Base, Edits[e]) = "Valid") <=> (e \in {"identical", "documented", "skipped_extra"})
+ASSUME \A e \in EditSet : (Verdict(Base, e.def) = "Valid") <=> (e.name \in Preserving)
 ASSUME \A e \in DOMAIN GEdits : (GVerdict(GBase, GEdits[e]) = "Valid") <=> (e \in {"identical", "relisted"})
 
 VARIABLE done
 Init == done = FALSE
 Next == UNCHANGED done
 Emit == PrintT(<<"REPLAY", ToJson([
-   traits |-> {[name |-> e, def |-> Edits[e], expect |-> Verdict(Base, Edits[e])] : e \in DOMAIN Edits},
+   traits |-> {[name |-> e.name, def |-> e.def, expect |-> Verdict(Base, e.def)] : e \in EditSet},
    groups |-> {[name |-> e, def |-> GEdits[e], expect |-> GVerdict(GBase, GEdits[e])] : e \in DOMAIN GEdits},
    ands   |-> {[a |-> v, b |-> w, r |-> And(v, w)] : v \in Vs, w \in Vs}])>>)
 =============================================================================
